@@ -287,6 +287,36 @@ let handle line =
         | RFailed -> lit_ "RF"
         | RNotConnected -> lit_ "NC" in
       print_str (List.concat (List.map (fun r -> show_res r @ lit_ "|") res))
+  | "TS" ->
+      (* TS limit nops (C ok | D fails | F bytes | E | R fails | W line fault)*: one stream transport over its life *)
+      let limit = nat_of_int (next_int c) in
+      let nops = next_int c in
+      let rec ops i acc =
+        if i = 0 then List.rev acc
+        else
+          let o = match next c with
+            | "C" -> TConnect (next_bool c)
+            | "D" -> TDisconnect (next_bool c)
+            | "F" -> TFeed (next_str c)
+            | "E" -> TEof
+            | "R" -> TRead (next_bool c)
+            | "W" -> let l = next_str c in let f = next_bool c in TWrite (l, (if f then WOSError else WOk))
+            | x -> failwith ("bad transport op " ^ x) in
+          ops (i - 1) (o :: acc) in
+      let (sf, outs) = trun limit ts_init (ops nops []) in
+      let show_res = function
+        | RLine s -> lit_ "L" @ List.concat (List.map (fun cp -> lit_ " " @ str_of_Z (Z.of_N cp)) s)
+        | RReadError _ -> lit_ "RE"
+        | RFailed -> lit_ "RF"
+        | RNotConnected -> lit_ "NC" in
+      let show = function
+        | TDone -> lit_ "ok"
+        | TConnectError -> lit_ "CE"
+        | TPending -> lit_ "P"
+        | TRes r -> show_res r in
+      print_str (List.concat (List.map (fun o -> show o @ lit_ "|") outs)
+                 @ lit_ "closes=" @ str_of_Z (Z.of_nat sf.ts_closes)
+                 @ lit_ " out=" @ List.concat (List.map (fun b -> str_of_Z (Z.of_N b) @ lit_ ",") sf.ts_out))
   | "MQW" ->
       let pre = next_str c in
       let line = next_str c in
